@@ -282,12 +282,13 @@ impl ClientCtx<'_, '_, '_, '_> {
 
         let elapsed = self.query_start.elapsed();
 
-        let time_left = if elapsed < timeout {
-            timeout - elapsed
-        } else {
-            Duration::from_millis(0)
-        };
+        if elapsed >= timeout {
+            // The per-query timeout has expired (e.g. while unrelated datagrams were being
+            // skipped). A zero duration is not a valid socket timeout, so report the expiry
+            // the same way an expired socket timeout is reported.
+            return Err(Error::IoError(ErrorKind::TimedOut.into()));
+        }
 
-        Ok(time_left.min(lifetime_left))
+        Ok((timeout - elapsed).min(lifetime_left))
     }
 }
